@@ -9,6 +9,16 @@ namespace Display
 @[simp] theorem spec_idxLazy (ll : Nat) : specArith.idxLazy ll = (natStr (ll + 1)).length + 2 := rfl
 @[simp] theorem spec_idxEager (n : Nat) : specArith.idxEager n = (natStr n).length + 2 := rfl
 @[simp] theorem spec_colWidth (a b c m : Nat) : specArith.colWidth a b c m = min (max (max a b) c) m := rfl
+@[simp] theorem spec_lazyHeadOnlyTake (l : Nat) : specArith.lazyHeadOnlyTake l = l := rfl
+@[simp] theorem spec_lazyHeadTake (l : Nat) : specArith.lazyHeadTake l = l := rfl
+@[simp] theorem spec_dequeMax (l : Nat) : specArith.dequeMax l = l := rfl
+@[simp] theorem spec_eagerHeadSize (l : Nat) : specArith.eagerHeadSize l = l := rfl
+@[simp] theorem spec_eagerTailSize (l : Nat) : specArith.eagerTailSize l = l := rfl
+@[simp] theorem spec_eagerSliceLen (l : Nat) : specArith.eagerSliceLen l = l := rfl
+@[simp] theorem spec_measure (t l : Nat) : specArith.measure t l = t := rfl
+@[simp] theorem measuredRows_spec (p : Params) (f : Frame) :
+    measuredRows specArith p f = cutRows specArith f.rows p.limit p.tt p.lazy := by
+  simp [measuredRows]
 @[simp] theorem spec_eagerSplit (n l : Nat) : (specArith.eagerSplit n l = true) = (2 * l < n) := by simp [specArith]
 @[simp] theorem spec_eagerAtEll (i l : Nat) : (specArith.eagerAtEll i l = true) = (i = l) := by simp [specArith]
 @[simp] theorem spec_eagerInTail (i l : Nat) : (specArith.eagerInTail i l = true) = (l ≤ i) := by simp [specArith]
